@@ -65,7 +65,7 @@ def src_path_of(mod):
     return None
 
 
-def make_crate(dst):
+def make_crate(dst, skip_modules=()):
     """scratch copy of /repo (sources only) with the harness modules appended"""
     shutil.copytree(os.path.join(REPO, 'src'), os.path.join(dst, 'src'))
     for f in ('Cargo.toml', 'Cargo.lock'):
@@ -80,6 +80,8 @@ def make_crate(dst):
         if not fn.endswith('.rs'):
             continue
         sp = src_path_of(fn[:-3])
+        if fn[:-3] in skip_modules:
+            continue
         if sp is None:
             missing.append(fn)
             continue
@@ -151,13 +153,19 @@ def run_harnesses(names, playback=False, timeout=3000):
         r = json.load(open(cpath))
         r['cache'] = 'hit'
         return r
+    return _run_harnesses(names, playback, timeout, cpath, ())
+
+
+def _run_harnesses(names, playback, timeout, cpath, skip):
+    table = harness_table()
     d = tempfile.mkdtemp(prefix='taverif-kani-')
     try:
-        missing = make_crate(d)
+        missing = make_crate(d, skip)
+        names_run = [n for n in names if table.get(n, {}).get('module') not in skip]
         cmd = ['timeout', str(timeout), 'cargo', 'kani', '-Z', 'function-contracts', '-Z', 'stubbing', '-j', '8', '--output-format', 'terse', '--no-overflow-checks', '-Z', 'unstable-options', '--harness-timeout', os.environ.get('VERIF_KANI_HTIMEOUT', '600s')]
         if playback:
             cmd += ['-Z', 'concrete-playback', '--concrete-playback=print']
-        for n in names:
+        for n in names_run:
             cmd += ['--harness', n]
         env = dict(os.environ)
         env['CARGO_NET_OFFLINE'] = 'true'
@@ -166,11 +174,30 @@ def run_harnesses(names, playback=False, timeout=3000):
         p = subprocess.run(cmd, cwd=d, capture_output=True, text=True, env=env)
         wall = time.time() - t0
         out = p.stdout + '\n' + p.stderr
-        r = {'rc': p.returncode, 'wall_s': round(wall, 1), 'cmd': ' '.join(cmd), 'results': parse_output(out, names), 'missing_modules': missing,
+        if p.returncode != 0 and 'Checking harness' not in out and not skip:
+            # the crate does not build with the harness modules: find the modules named in the compiler errors and retry without them
+            bad = set()
+            for blk in re.split(r'\n\s*\n', out):
+                if re.match(r'\s*error', blk):
+                    for mm in re.finditer(r'-->\s*src/(?:indicators/)?(\w+)\.rs:(\d+)', blk):
+                        bad.add(mm.group(1))
+            bad = tuple(sorted(b for b in bad if os.path.exists(os.path.join(KDIR, b + '.rs'))))
+            if bad:
+                shutil.rmtree(d, ignore_errors=True)
+                r = _run_harnesses(names, playback, timeout, None, bad)
+                r['skipped_modules'] = list(bad)
+                for n in names:
+                    if table.get(n, {}).get('module') in bad:
+                        r['results'][n] = {'harness': n, 'status': 'HARNESS_DOES_NOT_COMPILE', 'tail': out[-1500:]}
+                if cpath and not playback:
+                    os.makedirs(CACHE, exist_ok=True)
+                    json.dump(r, open(cpath, 'w'))
+                return r
+        r = {'rc': p.returncode, 'wall_s': round(wall, 1), 'cmd': ' '.join(cmd), 'results': parse_output(out, names_run), 'missing_modules': missing,
              'cache': 'miss', 'raw_tail': out[-4000:]}
         if playback:
             r['raw'] = out
-        if not playback:
+        if not playback and cpath:
             os.makedirs(CACHE, exist_ok=True)
             json.dump(r, open(cpath, 'w'))
         return r
